@@ -64,9 +64,10 @@ func Rotation(radians fl) Transform {
 	return Transform{cos, sin, -sin, cos, 0, 0}
 }
 
-// Skew returns a skew transformation
+// Skew returns a skew transformation: [thetax] is the angle of the skew
+// along the X axis (x' = x + tan(thetax) * y) and [thetay] along the Y axis.
 func Skew(thetax, thetay fl) Transform {
-	b, c := fl(math.Tan(float64(thetax))), fl(math.Tan(float64(thetay)))
+	b, c := fl(math.Tan(float64(thetay))), fl(math.Tan(float64(thetax)))
 	return Transform{1, b, c, 1, 0, 0}
 }
 
